@@ -49,6 +49,18 @@ package ledger
 //@   ensures len(tx.Postings) == 0 ==> len(r.Postings) == len(postings) && forall i int :: {r.Postings[i]} 0 <= i && i < len(postings) ==> r.Postings[i] == postings[i]
 //@   ensures r.Metadata == tx.Metadata && r.Timestamp == tx.Timestamp && r.Reference == tx.Reference && r.ID == tx.ID && r.RevertedAt == tx.RevertedAt && r.Template == tx.Template
 
+//@ func (tx Transaction) WithMetadata(m metadata.Metadata) (r Transaction)
+//@   property C15 C28
+//@   ensures r.Metadata == m && r.Postings == tx.Postings && r.Timestamp == tx.Timestamp && r.Reference == tx.Reference && r.ID == tx.ID && r.RevertedAt == tx.RevertedAt && r.Template == tx.Template
+
+//@ func (tx Transaction) WithReference(ref string) (r Transaction)
+//@   property C15 C28
+//@   ensures r.Reference == ref && r.Postings == tx.Postings && r.Timestamp == tx.Timestamp && r.Metadata == tx.Metadata && r.ID == tx.ID && r.RevertedAt == tx.RevertedAt && r.Template == tx.Template
+
+//@ func (tx Transaction) WithTemplate(template string) (r Transaction)
+//@   property C15 C28
+//@   ensures r.Template == template && r.Postings == tx.Postings && r.Timestamp == tx.Timestamp && r.Metadata == tx.Metadata && r.ID == tx.ID && r.RevertedAt == tx.RevertedAt && r.Reference == tx.Reference
+
 //@ func (tx Transaction) Reverse() (r Transaction)
 //@   property C15 C13
 //@   ensures isReverse(r.Postings, tx.Postings)
